@@ -570,6 +570,10 @@ impl Family for B1 {
                 if matches!(s.material, Material::CorruptInput(_) | Material::TruncatedInput(_) | Material::ExtendedInput(_)) {
                     out.violations.push(viol("C03", "cli_accepts_modified_file", format!("wiring {} ({:?} {:?}): the tool exited 0 on a file that is not authentic; output {} bytes, plaintext {} bytes", k, s.op, s.material, output.as_ref().map(|o| o.len()).unwrap_or(0), pt.len())));
                 }
+                if matches!(s.material, Material::TruncatedInput(_) | Material::ExtendedInput(_)) {
+                    // success without "a chunk marked final has verified and the ciphertext ends immediately after it"
+                    out.violations.push(viol("C04", "cli_success_without_final_chunk_at_eof", format!("wiring {} ({:?} {:?}): the tool reported success (exit 0) although the ciphertext does not end right after an authenticated final chunk", k, s.op, s.material)));
+                }
             }
             // sender naming after a successful key decryption
             let mut report = String::new();
@@ -585,6 +589,10 @@ impl Family for B1 {
                         let enc = rk::encode_pk(&pubs[0]);
                         if !stderr.contains(&enc) {
                             out.violations.push(viol("C12", "unknown_sender_not_reported", format!("wiring {}: sender is not in the keyring but its encoding {} is not printed: {}", k, enc, stderr)));
+                            // another key's encoding printed in its place: a sender is reported whose private key took no part
+                            if let Some(other) = pubs.iter().skip(1).map(rk::encode_pk).find(|e| stderr.contains(e.as_str())) {
+                                out.violations.push(viol("C05", "cli_reports_another_key_as_sender", format!("wiring {}: the file was made by {} (not in the keyring), but the key reported as its origin is {}", k, enc, other)));
+                            }
                         }
                         if !present.is_empty() {
                             out.violations.push(viol("C12", "wrong_sender_named", format!("wiring {}: sender is not in the keyring, yet {:?} is named", k, present)));
